@@ -86,6 +86,22 @@ SEEDS = {
              "the finished representation's row view of an Ice Climbers port"),
     "C17c": ("C17", "ser::payload_sizes writes the Game End entry only when the game has a Game End",
              "a game with end == None: the written file cannot be read back (reader requires the entry)"),
+    "C07c": ("C07", "read(): end of stream at an event boundary is treated as an in-progress replay (Ok with a partial game) whenever at least one frame exists, even if the header's raw length is non-zero",
+             "a finished file cut exactly before an event code after the first frame, full parse (skip_frames off)"),
+    "C08c": ("C08", "parse_event: before 3.0 every event that is not Frame Start/Pre/Post/Item closes the current frame - including unknown events",
+             "a pre-3.0 replay with an unknown event inside an open frame, before some character's Frame Pre"),
+    "C09c": ("C09", ".slp writer: the version guard moved below the header and payload-table writes",
+             "a refused write (version above 3.16.0) leaves 38-63 bytes in the sink"),
+    "C10c": ("C10", "skip-frames path looks one Game End length behind the last Game End and takes a 0x39 byte there for the first of two Game Ends",
+             "a finished single-Game-End file whose byte at raw_len - 2*(1 + Game End size) is 0x39"),
+    "C11c": ("C11", "format_hash prints the digest with {:x} instead of {:016x}",
+             "a file whose XXH3-64 digest has a leading zero hex digit (1 file in 16)"),
+    "C15c": ("C15", "rollbacks_: seen-table based on the first row's id instead of -123",
+             "an id sequence that contains an id lower than its first id: panic"),
+    "C19c": ("C19", "fix_char: the LEFT quotation marks U+2018 / U+201C mapped to ' and \" as well",
+             "a name containing U+2018 or U+201C"),
+    "C20c": ("C20", "FromStr for the Slippi version takes the first three components and never checks that the iterator is exhausted",
+             "strings with a valid triple followed by another dot and anything, e.g. \"1.2.3.4\", \"1.2.3.\""),
     "C20": ("C20", "Version::lt rewritten as `self.0 < major || self.1 < minor`",
             "a version whose major is above the threshold's major and whose minor is below the threshold's minor, e.g. 4.0 vs (3, 7)"),
 }
